@@ -27,8 +27,13 @@ def run_check(tier, seed):
         return finish(ev, PROP, findings, broken)
     scale = 1 if tier == 'quick' else 8
     if broken: scale *= 4
-    n = 320 * scale
-    cases = T.gen_vcases(rng, n // 2, writer_bias=True) + T.gen_vcases(rng, n - n // 2)
+    n = 220 * scale
+    # random chains and op sequences, 50% of them on a dirty log that is not empty at the start (random / all / alternating pages);
+    # then the deterministic family for long-lived logs: one writable segment of 3-5 pages, sub-writers written out of
+    # order (trailer and header before the payload), stores of several pages through write / write_vectored /
+    # write_from(_at) / write_all_from, initial log = exactly the end pages of each upcoming multi-page store (or none/all/alternating/random)
+    cases = T.gen_vcases(rng, n // 2, writer_bias=True, dirty_init=True) + T.gen_vcases(rng, n - n // 2, dirty_init=True) \
+        + [T.gen_dirty_case(rng) for _ in range(120 * scale)]
     txt = [T.case_text_v(c) for c in cases]
     outs, err = T.run_harness(bindir, 'virtio', txt, 'c17')
     evals = 0; shapes = set(); samples = []
@@ -43,7 +48,7 @@ def run_check(tier, seed):
             if p04: other += 1; spec_bad.add(i)            # a data/counter deviation is C04's finding; the dirty comparison is moot there
             if shape and not p17 and not p04 and o.get('dirty'):
                 pages = tuple(sorted(set((a % T.PS in (0, 1, T.PS - 1), (a + l - 1) // T.PS - a // T.PS) for a, l, k in c['descs'] if k == 'w')))
-                shapes.add((pages, shape[1], len(o['dirty'])))
+                shapes.add((pages, shape[1], len(o['dirty']), c.get('pattern'), c.get('dirty_mode'), bool(c.get('dirty0'))))
             exprs.append(T.vcase_coq(c, o, with_dirty=True) if not o.get('harness_panic') else 'false')
         ev.cov['cases_with_c04_deviation_skipped'] = other
         samples.append({'case': txt[0][:300], 'dirty_pages_observed': outs[0].get('dirty'), 'memory_changes': [d[0] for d in outs[0].get('mem', [])][:8]})
